@@ -5,7 +5,7 @@
 (* the other tree shapes are model-checked by the non-emitting `kinds` config.               *)
 EXTENDS History, Json
 
-AllKinds == {"loco", "consist", "setspeed", "slts"}
+AllKinds == {"loco", "consist", "setspeed", "slts", "vec"}
 Slts == {"slts"}
 Iv4 == {0, 1, 2, 3}
 (* <<units' own interval, interval given to Consist::new>>: equal to / different from each other and from the *)
